@@ -1826,10 +1826,11 @@ func generatePrefixStringTemplate(scope *parser.Scope) string {
 	}
 	template := ""
 	template += scope.Prefix.Template("%s")
-	template += globals.TopicDelimiter
 	if len(scope.Prefix.Variables) == 0 {
-		return template
+		return template + globals.TopicDelimiter
 	}
+	// the delimiter is part of a fmt.Sprintf template here
+	template += strings.Replace(globals.TopicDelimiter, "%", "%%", -1)
 	vars := make([]interface{}, len(scope.Prefix.Variables))
 	for i, variable := range scope.Prefix.Variables {
 		vars[i] = fmt.Sprintf("$%s", variable)
